@@ -60,3 +60,4 @@ try:
 finally:
     subprocess.run(["git", "-C", wt, "checkout", "--", "."])
     subprocess.run(["git", "-C", "/repo", "worktree", "remove", "--force", wt], capture_output=True)
+    subprocess.run([sys.executable, os.path.join(V, "tools", "regen.py")], capture_output=True)
